@@ -465,3 +465,131 @@ Proof.
     + exists h2. split; assumption.
 Qed.
 
+
+(* ---- a collection is invisible on the reachable part ------------------------------------- *)
+Lemma collect_with_marked : forall E h roots,
+  exists m, collect_with E h roots = Some (sweep h m) /\ forall i, In i m <-> reach E h roots i.
+Proof.
+  intros E h roots. unfold collect_with.
+  destruct (mark_closure E h roots) as (m & Hm & Hiff). rewrite Hm. exists m. split; [reflexivity|exact Hiff].
+Qed.
+
+(* reachability is the same relation in the heap after the collection, and every reachable
+   object is the same object *)
+Lemma reach_after_collect : forall E h roots h',
+  collect_with E h roots = Some h' ->
+  (forall i, reach E h' roots i <-> reach E h roots i)
+  /\ (forall i, reach E h roots i -> get h' i = get h i).
+Proof.
+  intros E h roots h' Hc.
+  destruct (collect_with_marked E h roots) as (m & Hc2 & Hiff). rewrite Hc in Hc2. injection Hc2 as ->.
+  assert (Hkeep : forall i, reach E h roots i -> get (sweep h m) i = get h i).
+  { intros i Hr. rewrite get_sweep. apply Hiff, mem_In in Hr. rewrite Hr. reflexivity. }
+  assert (Hsome : forall i o, get (sweep h m) i = Some o -> get h i = Some o /\ reach E h roots i).
+  { intros i o Hg. rewrite get_sweep in Hg. destruct (mem i m) eqn:Hm; [|discriminate].
+    split; [exact Hg|]. apply Hiff, mem_In, Hm. }
+  split; [|exact Hkeep].
+  intro i. split.
+  - intro H. induction H as [r o Hin Hg | i o j o' _ IH Hg Hj Hg'].
+    + destruct (Hsome r o Hg) as [_ Hr]. exact Hr.
+    + destruct (Hsome i o Hg) as [Hgi _]. destruct (Hsome j o' Hg') as [Hgj _].
+      exact (reach_step E h roots i o j o' IH Hgi Hj Hgj).
+  - intro H. induction H as [r o Hin Hg | i o j o' Hri IH Hg Hj Hg'].
+    + apply (reach_root E (sweep h m) roots r o Hin). rewrite Hkeep; [exact Hg|].
+      exact (reach_root E h roots r o Hin Hg).
+    + assert (Hrj : reach E h roots j) by exact (reach_step E h roots i o j o' Hri Hg Hj Hg').
+      apply (reach_step E (sweep h m) roots i o j o' IH); [rewrite (Hkeep i Hri); exact Hg|exact Hj|].
+      rewrite (Hkeep j Hrj). exact Hg'.
+Qed.
+
+(* ---- free-list well-formedness: allocation never lands on a live object ------------------- *)
+Definition heap_wf (h : heap) : Prop :=
+  NoDup (free h) /\ forall x, In x (free h) -> get h x = None /\ (N.to_nat x < length (slots h))%nat.
+
+Lemma freed_slots_lt : forall s i m x, In x (freed_slots s i m) -> i <= x /\ x < i + N.of_nat (length s).
+Proof.
+  intros s i m x H. apply freed_slots_spec in H. destruct H as (n & o & -> & Hn & _).
+  assert (n < length s)%nat by (apply nth_error_Some; rewrite Hn; discriminate). lia.
+Qed.
+
+Lemma freed_slots_NoDup : forall s i m, NoDup (freed_slots s i m).
+Proof.
+  induction s as [|y t IH]; intros i m; cbn [freed_slots]; [constructor|].
+  destruct y as [o|]; [destruct (mem i m)|]; try apply IH.
+  constructor; [|apply IH]. intro Hin. apply freed_slots_lt in Hin. lia.
+Qed.
+
+Lemma NoDup_app_intro : forall {A} (a b : list A),
+  NoDup a -> NoDup b -> (forall x, In x a -> In x b -> False) -> NoDup (a ++ b).
+Proof.
+  intros A a b Ha Hb Hd. induction Ha as [|x a Hx Ha IH]; [exact Hb|].
+  cbn [app]. constructor.
+  - intro Hin. apply in_app_or in Hin. destruct Hin as [Hin|Hin]; [exact (Hx Hin)|].
+    exact (Hd x (or_introl eq_refl) Hin).
+  - apply IH. intros y Hy. apply Hd. right. exact Hy.
+Qed.
+
+Lemma sweep_wf : forall h m, heap_wf h -> heap_wf (sweep h m).
+Proof.
+  intros h m [Hnd Hfree]. split.
+  - unfold sweep. cbn [free]. apply NoDup_app_intro.
+    + apply NoDup_rev. apply freed_slots_NoDup.
+    + exact Hnd.
+    + intros x Hx Hx'. apply in_rev in Hx. apply freed_slots_spec in Hx.
+      destruct Hx as (n & o & Hxe & Hn & _). destruct (Hfree x Hx') as [Hg _].
+      unfold get in Hg. replace (0 + N.of_nat n) with (N.of_nat n) in Hxe by lia. subst x.
+      rewrite Nat2N.id, Hn in Hg. discriminate.
+  - intros x Hx. split.
+    + rewrite get_sweep. apply sweep_free_spec in Hx. destruct Hx as [Hx|[[o Hg] Hm]].
+      * destruct (Hfree x Hx) as [Hg _]. rewrite Hg. destruct (mem x m); reflexivity.
+      * apply mem_false in Hm. rewrite Hm. reflexivity.
+    + unfold sweep. cbn [slots]. rewrite sweep_slots_length.
+      apply sweep_free_spec in Hx. destruct Hx as [Hx|[[o Hg] _]].
+      * apply (Hfree x Hx).
+      * exact (get_in_range h x o Hg).
+Qed.
+
+Lemma get_app_new : forall (s : list (option obj)) (o : obj) (j : nat),
+  nth_error (s ++ [Some o]) j = if Nat.eqb j (length s) then Some (Some o) else nth_error s j.
+Proof.
+  intros s o j. destruct (Nat.eqb j (length s)) eqn:He.
+  - apply Nat.eqb_eq in He. subst j. rewrite nth_error_app2 by lia. rewrite Nat.sub_diag. reflexivity.
+  - apply Nat.eqb_neq in He. destruct (Nat.lt_ge_cases j (length s)) as [Hlt|Hge].
+    + rewrite nth_error_app1 by exact Hlt. reflexivity.
+    + rewrite nth_error_app2 by lia. destruct (j - length s)%nat as [|k] eqn:Hk; [lia|].
+      cbn [nth_error]. destruct k; cbn [nth_error]; symmetry; apply nth_error_None; lia.
+Qed.
+
+(* Heap::alloc on a well-formed heap: the slot handed out was empty, every other slot is
+   untouched, the heap stays well-formed *)
+Lemma alloc_preserves_live : forall h o h2 i,
+  heap_wf h -> alloc h o = (h2, i) ->
+  get h i = None /\ get h2 i = Some o /\ (forall j, j <> i -> get h2 j = get h j) /\ heap_wf h2.
+Proof.
+  intros h o h2 i [Hnd Hfree] Ha. unfold alloc in Ha. destruct (free h) as [|x rest] eqn:Hf.
+  - injection Ha as <- <-. 
+    assert (Hnone : get h (N.of_nat (length (slots h))) = None).
+    { unfold get. rewrite Nat2N.id. 
+      assert (Hn : nth_error (slots h) (length (slots h)) = None) by (apply nth_error_None; lia).
+      rewrite Hn. reflexivity. }
+    split; [exact Hnone|]. split; [|split].
+    + unfold get. cbn [slots]. rewrite Nat2N.id, get_app_new, Nat.eqb_refl. reflexivity.
+    + intros j Hj. unfold get. cbn [slots]. rewrite get_app_new.
+      destruct (Nat.eqb (N.to_nat j) (length (slots h))) eqn:He; [|reflexivity].
+      apply Nat.eqb_eq in He. exfalso. apply Hj. lia.
+    + split; cbn [free]; [constructor|intros y []].
+  - injection Ha as <- <-. destruct (Hfree x (or_introl eq_refl)) as [Hgx Hlen].
+    inversion Hnd as [|? ? Hnotin Hnd']. subst.
+    split; [exact Hgx|]. split; [|split].
+    + unfold get. cbn [slots]. rewrite nth_set_slot_same by exact Hlen. reflexivity.
+    + intros j Hj. unfold get. cbn [slots]. rewrite nth_set_slot_other; [reflexivity|]. intro He. apply Hj. lia.
+    + split; cbn [free slots]; [exact Hnd'|].
+      intros y Hy. destruct (Hfree y (or_intror Hy)) as [Hgy Hly]. split.
+      * unfold get. cbn [slots]. rewrite nth_set_slot_other.
+        -- exact Hgy.
+        -- intro He. apply Hnotin. replace x with y by lia. exact Hy.
+      * assert (Hl : length (set_slot (slots h) (N.to_nat x) o) = length (slots h)).
+        { clear. generalize (N.to_nat x). induction (slots h) as [|a t IH]; intros n; [destruct n; reflexivity|].
+          destruct n; cbn [set_slot length]; [reflexivity|rewrite IH; reflexivity]. }
+        rewrite Hl. exact Hly.
+Qed.
